@@ -46,7 +46,25 @@ theorem format_sites_reviewed : Risor.Generated.C05.formatSites = formatSitesRev
 /-- the packages the extractor walked are the property's scope -/
 theorem scope_is_complete :
     Risor.Generated.C05.scope =
-      ["risor", "ast", "builtins", "compiler", "errz", "importer", "object", "op", "os", "parser", "vm"] := by
+      ["risor", "ast", "builtins", "compiler", "errz", "importer", "object", "op", "os", "parser", "vm",
+       "arg", "lexer", "limits", "token",
+       "modules/all", "modules/base64", "modules/bytes", "modules/dns", "modules/errors", "modules/exec",
+       "modules/filepath", "modules/fmt", "modules/http", "modules/json", "modules/math", "modules/net",
+       "modules/os", "modules/rand", "modules/regexp", "modules/strconv", "modules/strings", "modules/time"] := by
+  decide
+
+/-- every directory under modules/ that belongs to the root module (what the default globals
+    of `risor.Eval` can hold) is walked: a new module directory breaks this lemma -/
+theorem root_modules_in_scope :
+    Risor.Generated.C05.rootModules.all (fun m => Risor.Generated.C05.scope.contains m) = true := by
+  decide
+
+/-- the json paths: the `MarshalJSON` method of every object type is what was reviewed — the
+    containers hand their Go map / sorted listing / slice to `encoding/json` in ONE call (which
+    sorts map keys before it marshals the values), the unmarshalable types fail outright.  A
+    `MarshalJSON` that starts walking the elements itself (a `range`, a loop, several
+    statements) is printed as `other…` and breaks this lemma. -/
+theorem marshal_paths_reviewed : Risor.Generated.C05.marshalPaths = marshalPathsReviewed := by
   decide
 
 end Risor.C05
